@@ -198,6 +198,14 @@ func TestVerifC02Gating(t *testing.T) {
 					if prefix != "" {
 						vstats.Label("leftoverWithPrefix")
 					}
+				} else if !weeks[wk].built && len(weeks[wk].files) > 0 && rapid.Bool().Draw(t, "leftoverForWeekWithFiles") {
+					// an earlier run was interrupted between writing <week>.json and local.<week>.json: the week's
+					// counter files are still there. The report exists, so the week is not built again; whether the
+					// leftover may be sent is decided by the mode and the dates like for any ready report.
+					weeks[wk].built, weeks[wk].uploadable = true, true
+					os.WriteFile(filepath.Join(dir, "local", wk+".json"), []byte(fmt.Sprintf("{\"Week\":%q,\"X\":0.5,\"Config\":\"v0\"}", wk)), 0666)
+					boundary = true
+					vstats.Label("leftoverForWeekWithFiles")
 					boundary = true
 				}
 			}
